@@ -312,6 +312,19 @@ def run_impl(cases):
                 fails += cross_pred(case["cont"], ow, o, names_old, names_app if case["dir"] == "o2n" else [], first_variants)
             except Exception as ex:  # pylint: disable=broad-except
                 fails.append("writer's own revision cannot read the data (%s)" % type(ex).__name__)
+        if o is not None:
+            # the application mutates what it received; decoding the same bytes again must give the original value
+            try:
+                import copy
+                import random as _random
+                snap = copy.deepcopy(o)
+                S.mutate_in_place(_random.Random(len(bs) * 7919 + 23), tr, o)
+                if not S.py_equal(snap, p.deserialize(sr, bs)):
+                    fails.append("decoding the same bytes again after the first result was mutated in place gives a different value")
+                if p.serialize(sw, S.to_py(tw, case["val"])) != bs:
+                    fails.append("serializing the same value again after a decoded object was mutated in place gives different bytes")
+            except Exception as ex:  # pylint: disable=broad-except
+                fails.append("repeating the step after mutating the decoded object raised %s" % type(ex).__name__)
         if fails:
             obs["pred_fail"] = "; ".join(sorted(set(fails)))
         out.append(obs)
